@@ -45,6 +45,9 @@ impl Vm {
             (VCell::Nil, VCell::Nil) => Ok(true),
             (VCell::Pair(_, _), VCell::Pair(_, _)) => Ok(left == right),
             (VCell::Char(left), VCell::Char(right)) => Ok(left == right),
+            // Symbols are interned and normally compare by pointer above; this arm
+            // covers symbols that were already dereferenced by the caller
+            (VCell::Symbol(left), VCell::Symbol(right)) => Ok(left == right),
             (VCell::String(left), VCell::String(right)) => Ok(left == right),
             _ => Ok(false),
         }
